@@ -79,7 +79,7 @@ def setup(tier):
     api = wd.mod("watchdog.observers.api")
     desc = vsched.instrument(
         line_modules=[api, wd.mod("watchdog.utils.bricks"), wd.mod("watchdog.utils")],
-        instr_functions=[api.BaseObserver.dispatch_events], exclude=obsfam.EXCLUDE)
+        instr_functions=[(api.BaseObserver, "dispatch_events")], exclude=obsfam.EXCLUDE)
     desc2 = inoapi.instrument()
     real = [ApiH(f"c06 {n}", p) for n, p in inoapi.programs(tier)]
     return [H(f"c06 {n}", p) for n, p in programs(tier)] + real, dict(scripted=desc, real_emitters=desc2)
